@@ -67,28 +67,26 @@ Proof.
     + unfold queued in *. cbn. rewrite Ec in Hs1. exact Hs1.
 Qed.
 
-Lemma outbound_progress c x s :
-  e_alive (cn s x) = true -> wgate (glo s x) = true ->
+Lemma outbound_progress c x b s :
+  e_alive (cn s x) = true -> wgate (glo s x) = true -> qlen s x < b ->
   Forall (fun n => n_len n <= c_max (ecf c x)) (opt_list (e_cur (cn s x)) ++ e_sq (cn s x) ++ e_aq (cn s x)) ->
-  let '(s1, refused) := out_phase c x s in
+  let '(s1, refused) := out_phase c x b s in
   refused = false /\ e_cur (cn s1 x) = None /\ e_sq (cn s1 x) = [] /\ e_aq (cn s1 x) = [] /\ e_sk (cn s1 x) = [] /\
   (Forall (fun n => n_sync n = true) (e_sq (cn s x)) -> Forall (fun n => n_sync n = false) (e_aq (cn s x)) ->
    forall k m, proj k m (carrier (glo s1 x)) = proj k m (pipe s x)).
 Proof.
-  intros Ha Hg Hs. unfold out_phase, cn, pipe in *.
+  intros Ha Hg Hb Hs. unfold out_phase, cn, pipe, qlen in *.
   set (L0 := mkLst _ _ _ _ _ _ _).
-  destruct (a_loop_drains (c_max (ecf c x))
-              (S (opt_len (e_cur (ec (gep s x))) + length (e_sq (ec (gep s x))) + length (e_aq (ec (gep s x))))) L0)
-    as (L' & E & E1 & E2 & E3).
-  { unfold qmeasure, L0. cbn [l_cur l_sq l_aq]. lia. }
+  set (fuel := (opt_len (e_cur (ec (gep s x))) +
+                N.to_nat (N.min b (len (e_sq (ec (gep s x))) + len (e_aq (ec (gep s x))) + 1)))%nat).
+  destruct (a_loop_drains (c_max (ecf c x)) fuel L0) as (L' & E & E1 & E2 & E3).
+  { unfold qmeasure, L0, fuel, len in *. cbn [l_cur l_sq l_aq]. lia. }
   { exact Hs. }
   assert (Q : Forall (fun n => n_sync n = true) (e_sq (ec (gep s x))) ->
               Forall (fun n => n_sync n = false) (e_aq (ec (gep s x))) ->
               forall k m, proj k m (l_ca L' ++ l_sk L') = proj k m (lflat L0)).
   { intros T1 T2 k m. assert (HT : T1L L0) by (split; assumption).
-    pose proof (a_loop_core (sel k m) (sel_pure k m)
-                  (S (opt_len (e_cur (ec (gep s x))) + length (e_sq (ec (gep s x))) + length (e_aq (ec (gep s x)))))
-                  (c_max (ecf c x)) true L0 HT) as R.
+    pose proof (a_loop_core (sel k m) (sel_pure k m) fuel (c_max (ecf c x)) true L0 HT) as R.
     rewrite E in R. destruct R as [_ R]. unfold proj. rewrite <- R. unfold lflat. rewrite E1, E2, E3. cbn.
     now rewrite !app_nil_r. }
   rewrite Hg in *. rewrite E.
@@ -97,14 +95,14 @@ Proof.
 Qed.
 
 (* ------------------------------------------------------------------ the receiving Connection reads *)
-Lemma conn_loop_appends c x : forall fuel s, e_alive (cn s x) = true ->
-  exists more, e_nq (hn (conn_loop fuel c x s) x) = e_nq (hn s x) ++ more.
+Lemma conn_loop_appends c x : forall fuel b s, e_alive (cn s x) = true ->
+  exists more, e_nq (hn (conn_loop fuel c x b s) x) = e_nq (hn s x) ++ more.
 Proof.
-  intros fuel s Ha.
+  intros fuel b s Ha.
   apply (conn_loop_gen (fun s' => exists more, e_nq (hn s' x) = e_nq (hn s x) ++ more) c x); auto.
   - intros s0 nfy [m E] _. exists m. rewrite <- E. destruct x; reflexivity.
-  - intros s0 [m E] Ha0 _. pose proof (out_phase_frame c x s0 Ha0) as F. cbn zeta in F.
-    destruct (out_phase c x s0) as [s1 [|]]; cbn [fst] in F;
+  - intros s0 b0 [m E] Ha0 _. pose proof (out_phase_frame c x b0 s0 Ha0) as F. cbn zeta in F.
+    destruct (out_phase c x b0 s0) as [s1 [|]]; cbn [fst] in F;
       destruct F as (_ & _ & _ & _ & _ & _ & _ & _ & _ & Fn & _); exists m.
     + rewrite <- E, <- Fn. destruct x; reflexivity.
     + now rewrite Fn.
@@ -114,47 +112,61 @@ Proof.
   - exists []. now rewrite app_nil_r.
 Qed.
 
-Lemma conn_loop_S f c x s : conn_loop (S f) c x s =
-      if e_shut (ec (gep s x)) then close x false s else
+Lemma conn_loop_S f c x b s : conn_loop (S f) c x b s =
+      if e_shut (ec (gep s x)) && (0 <? b) then close x false s else
       if killed s then close x true s else
-      let '(s1, refused) := out_phase c x s in
+      let '(s1, refused) := out_phase c x b s in
       if refused then close x true s1 else
-      if negb (can_reserve c x s1) then set_res x false true s1 else
-      let s2 := set_res x true false s1 in
+      let b1 := b - (qlen s x - qlen s1 x) in
+      let '(s2, go, b2) := reserve_phase c x b1 s1 in
+      if negb go then s2 else
       let li := glo s2 (negb x) in
       if negb (rgate li) then s2 else
       match carrier li with
       | [] => if wclosed s2 (negb x) then close x true s2 else s2
       | n :: rest =>
           if c_max (ecf c x) <? n_len n then close x true s2
-          else conn_loop f c x (push_nq x n (slo s2 (negb x) (mkL (wgate li) (rgate li) rest)))
+          else conn_loop f c x b2 (push_nq x n (slo s2 (negb x) (mkL (wgate li) (rgate li) rest)))
       end.
 Proof. reflexivity. Qed.
 
-Lemma inbound_progress c y s n rest :
-  e_alive (cn s y) = true -> e_shut (cn s y) = false -> killed s = false ->
-  snd (out_phase c y s) = false -> can_reserve c y s = true ->
+(* with budget to spare (more than what is queued for sending), a poll of a Connection that can get a
+   slot of the handle channel moves at least the first frame of the carrier into that channel *)
+Lemma inbound_progress c y b s n rest :
+  e_alive (cn s y) = true -> e_shut (cn s y) = false -> killed s = false -> qlen s y < b ->
+  snd (out_phase c y b s) = false -> can_reserve c y s = true ->
   rgate (glo s (negb y)) = true -> carrier (glo s (negb y)) = n :: rest -> n_len n <= c_max (ecf c y) ->
-  exists more, e_nq (hn (conn_poll c y s) y) = e_nq (hn s y) ++ n :: more.
+  exists more, e_nq (hn (conn_poll c y b s) y) = e_nq (hn s y) ++ n :: more.
 Proof.
-  intros Ha Hsh Hk Ho Hc Hg Ec Hn. unfold conn_poll. fold (cn s y). rewrite Ha.
-  rewrite conn_loop_S. fold (cn s y). rewrite Hsh, Hk.
-  pose proof (out_phase_frame c y s Ha) as F. cbn zeta in F.
-  destruct (out_phase c y s) as [s1 refused]. cbn [fst snd] in *. subst refused.
-  destruct F as (Fa & Fk & Fp & _ & _ & Fg & _ & _ & _ & Fn & _ & _ & Fr & _).
+  intros Ha Hsh Hk Hb Ho Hc Hg Ec Hn.
+  assert (Emx : (c_max (ecf c y) <? n_len n) = false) by (clear - Hn; lia).
+  unfold conn_poll. fold (cn s y). rewrite Ha.
+  rewrite conn_loop_S. fold (cn s y). rewrite Hsh, Hk. cbn [andb].
+  pose proof (out_phase_frame c y b s Ha) as F. cbn zeta in F.
+  destruct (out_phase c y b s) as [s1 refused]. cbn [fst snd] in *. subst refused.
+  destruct F as (Fa & Fk & Fp & _ & _ & Fg & _ & _ & _ & Fn & _ & _ & Fr & Fw & _).
   assert (Hc1 : can_reserve c y s1 = true).
   { unfold can_reserve in *. fold (cn s1 y) (hn s1 y). fold (cn s y) (hn s y) in Hc. now rewrite Fr, Fn. }
-  rewrite Hc1. cbn [negb]. cbn zeta.
-  set (s2 := set_res y true false s1).
-  assert (G2 : glo s2 (negb y) = glo s (negb y)) by (rewrite <- Fg; destruct y; reflexivity).
+  cbn zeta. set (b1 := b - (qlen s y - qlen s1 y)).
+  assert (Hb1 : 0 < b1) by (unfold b1; clear - Hb; lia).
+  (* in both cases of poll_reserve the slot is held afterwards *)
+  assert (R : exists s2 b2, reserve_phase c y b1 s1 = (s2, true, b2) /\ e_alive (cn s2 y) = true /\
+                            glo s2 (negb y) = glo s1 (negb y) /\ e_nq (hn s2 y) = e_nq (hn s1 y)).
+  { unfold reserve_phase. fold (cn s1 y). destruct (e_res (cn s1 y) && negb (e_rwait (cn s1 y))).
+    - exists s1, b1. repeat split; auto.
+    - rewrite Hc1. assert (E : (0 <? b1) = true) by (clear - Hb1; lia). rewrite E.
+      exists (set_res y true false s1), (b1 - 1). split; [reflexivity|].
+      unfold set_res, cn, hn in *. destruct y; cbn in *; repeat split; auto. }
+  destruct R as (s2 & b2 & ER & A2 & G2' & N2). rewrite ER. cbn [negb].
+  assert (G2 : glo s2 (negb y) = glo s (negb y)) by (now rewrite G2', Fg).
   rewrite G2, Hg, Ec. cbn [negb].
-  destruct (c_max (ecf c y) <? n_len n) eqn:E; [lia|].
+  rewrite Emx.
   set (s3 := push_nq y n _).
-  assert (A3 : e_alive (cn s3 y) = true) by (unfold s3, s2, push_nq, slo, set_res, cn in *; destruct y; cbn in *; exact Fa).
-  match goal with |- context [conn_loop ?f c y s3] => destruct (conn_loop_appends c y f s3 A3) as [more Em] end.
+  assert (A3 : e_alive (cn s3 y) = true) by (unfold s3, push_nq, slo, cn in *; destruct y; cbn in *; exact A2).
+  match goal with |- context [conn_loop ?f c y ?bb s3] => destruct (conn_loop_appends c y f bb s3 A3) as [more Em] end.
   exists more. rewrite Em.
-  replace (e_nq (hn s3 y)) with (e_nq (hn s1 y) ++ [n]) by (destruct y; reflexivity).
-  rewrite Fn, <- app_assoc. reflexivity.
+  replace (e_nq (hn s3 y)) with (e_nq (hn s2 y) ++ [n]) by (destruct y; reflexivity).
+  rewrite N2, Fn, <- app_assoc. reflexivity.
 Qed.
 
 (* ------------------------------------------------------------------ the handle reports the head of its channel *)
